@@ -97,7 +97,7 @@ func setStructToForm(q url.Values, val reflect.Value) {
 			a = make([]string, 0, 1)
 		}
 		if structField.Kind() == reflect.Slice || structField.Kind() == reflect.Array {
-			for i := structField.Len() - 1; i >= 0; i-- {
+			for i := 0; i < structField.Len(); i++ {
 				if s, ok := formatProperType(structField.Index(i)); ok {
 					a = append(a, s)
 				}
@@ -176,6 +176,9 @@ func mapFormToStruct(val reflect.Value, form map[string][]string) error {
 
 		numElems := len(inputValue)
 		if structFieldKind == reflect.Array && numElems > 0 {
+			if numElems > structField.Len() {
+				return fmt.Errorf("form codec: %d values for the array field %s of length %d", numElems, inputFieldName, structField.Len())
+			}
 			for i := 0; i < numElems; i++ {
 				arrayOf := structField.Type().Elem().Kind()
 				if err := setWithProperType(arrayOf, inputValue[i], structField.Index(i)); err != nil {
